@@ -681,6 +681,9 @@ func (s *Server) handlePQClientRequestHidden(b []byte) (int, *HandshakeState, er
 	// init kem
 	hs.kem = new(kemState)
 
+	// The client's certificate is checked while the request is read.
+	hs.certVerify = s.config.ClientVerify
+
 	n, err := s.readPQClientRequestHidden(hs, b)
 
 	if err != nil {
